@@ -70,6 +70,11 @@ class Prop:
     name: str
     type: TRef
     doc: Optional[str] = None
+    default: Optional[str] = None  # constructor default of a NON-optional property (Python literal text)
+
+    @property
+    def has_default(self) -> bool:
+        return self.type.optional or self.default is not None
 
 
 @dataclass
@@ -220,7 +225,7 @@ class Spec:
                     for c in d.get("cps", [])]
         spec.classes = [
             Cls(c["name"], list(c["bases"]), bool(c["abstract"]),
-                [Prop(p["name"], tref(p["type"]), p.get("doc")) for p in c["props"]],  # type: ignore
+                [Prop(p["name"], tref(p["type"]), p.get("doc"), p.get("default")) for p in c["props"]],  # type: ignore
                 [inv(i) for i in c.get("invs", [])], bool(c.get("with_model_type")), c.get("doc"),
                 bool(c.get("dbc", True)), bool(c.get("kw_super", False)),
                 [list(b) for b in (c.get("method_blocks") or [])])
@@ -288,7 +293,7 @@ def _inv_lines(inv: Inv) -> List[str]:
 
 def ctor_args(spec: Spec, cls: Cls) -> List[Prop]:
     props = spec.all_props(cls.name)
-    return [p for p in props if not p.type.optional] + [p for p in props if p.type.optional]
+    return [p for p in props if not p.has_default] + [p for p in props if p.has_default]
 
 
 def render_class(spec: Spec, cls: Cls) -> List[str]:
@@ -323,6 +328,8 @@ def render_class(spec: Spec, cls: Cls) -> List[str]:
         for p in args:
             if p.type.optional:
                 sig.append(f"{p.name}: {p.type.render()} = None")
+            elif p.default is not None:
+                sig.append(f"{p.name}: {p.type.render()} = {p.default}")
             else:
                 sig.append(f"{p.name}: {p.type.render()}")
         body.append("")
@@ -344,7 +351,7 @@ def render_class(spec: Spec, cls: Cls) -> List[str]:
             else:
                 call = ", ".join(
                     ["self"]
-                    + [p.name if not p.type.optional else f"{p.name}={p.name}" for p in bargs]
+                    + [p.name if not p.has_default else f"{p.name}={p.name}" for p in bargs]
                 )
             stmts.append(f"        {b}.__init__({call})")
         for p in cls.props:
@@ -511,10 +518,13 @@ class Opts:
     class_weight: int = 1  # relative weight of class-typed properties / list items
     max_consts: int = 3
     max_literals: int = 4
+    defaults: bool = False  # non-optional primitive/enum properties may get a constructor default
     guard_other: float = 0.0  # schema invariants: probability of a None-guard on a *different* property (near-miss)
 
 
 WEIRD_CHARS = "ab \"'\\\n\t\r\x00\x01\x1f\x7f\u0085\u00a0\u00e9\u00ff\u0100\u2028\u2029\ufeff\ufffd\U0001F600{}$`%"
+
+_DEFAULTS = {"bool": ["True", "False"], "int": ["0", "3"], "str": ['"x"', '""'], "float": ["1.5", "0.0"]}
 
 PATTERN_EXAMPLES = {
     "^[a-z]+$": ["a", "ab", "abc", "zzzz", "abcdef"],
@@ -776,9 +786,14 @@ def specs(draw: Any, opts: Opts = Opts()) -> Spec:
         n_props = draw(st.integers(0, opts.max_props))
         for pn in _names(draw, PROP_WORDS, PROP_SUFFIXES, n_props, prop_taken):
             t = draw_type()
+            default = None
             if draw(st.floats(0, 1)) < 0.4:
                 t = TRef("opt", item=t)
-            c.props.append(Prop(pn, t, _plain_doc(draw, opts)))
+            elif opts.defaults and t.kind == "prim" and t.name in _DEFAULTS and draw(st.floats(0, 1)) < 0.2:
+                default = draw(st.sampled_from(_DEFAULTS[t.name]))
+            elif opts.defaults and t.kind == "enum" and spec.enum(t.name).literals and draw(st.floats(0, 1)) < 0.2:
+                default = f"{t.name}.{spec.enum(t.name).literals[0][0]}"
+            c.props.append(Prop(pn, t, _plain_doc(draw, opts), default))
 
     _make_instantiable(spec)
 
